@@ -31,7 +31,7 @@ func VerifPipeCounters(c Client) (state int32, waits int32, bg int32) {
 		return -1, -1, -1
 	}
 	p, ok := m.muxwires[0].wire.Load().(*pipe)
-	if !ok {
+	if !ok || p == nil { // the mux's initial wire is a nil *pipe
 		return -1, -1, -1
 	}
 	return atomic.LoadInt32(&p.state), int32(p.loadWaits()), atomic.LoadInt32(&p.bgState)
